@@ -45,8 +45,8 @@ Fixpoint explicit_after (fuel : nat) (opa stride tmb : Z) : Z :=
   | S f => if (0 <? opa) && negb (opa mod stride =? tmb mod stride) then explicit_after f (opa - 1) stride tmb else opa
   end.
 Definition calc_explicit_padding (input_size stride filter_size pad_before pad_after : Z) : Z * Z :=
-  let total := needed_total_padding input_size stride filter_size in
-  (pad_before, explicit_after (Z.to_nat pad_after) pad_after stride (total - pad_before)).
+  let total_minus_before := filter_size - input_size - pad_before in
+  (pad_before, explicit_after (Z.to_nat pad_after) pad_after stride total_minus_before).
 
 Definition PAD_SAME : Z := 0.
 Definition PAD_VALID : Z := 1.
